@@ -471,7 +471,10 @@ func main() {
 	r := vh.NewRng(o.Seed)
 
 	var cases []Case
-	if o.Replay != "" {
+	searching := o.Search != ""
+	if searching {
+		cases = searchCases(o, r)
+	} else if o.Replay != "" {
 		var c Case
 		if vh.ReadReplayCase(o.Replay, &c) {
 			c.Origin = "replay"
@@ -751,6 +754,11 @@ func main() {
 		}
 	}
 
+	if searching {
+		// oracle only
+		run.Finish()
+		return
+	}
 	// ---- Coq cases
 	const shard = 60
 	var terms []string
